@@ -112,6 +112,10 @@ def generate(rng: random.Random, tier: str) -> dict:
     names = rng.sample(RESULT_NAMES, k=rng.randint(2, 4))
     if "fit" not in names and rng.random() < 0.7:
         names[0] = "fit"  # most collisions are with the plain name
+    if "sub/fit" in names and "sub" not in names and rng.random() < 0.6:
+        names.append("sub")  # a result name that is also the folder part of another result name
+    elif "sub" in names and "sub/fit" not in names and rng.random() < 0.6:
+        names.append("sub/fit")
     for _ in range(n):
         r = rng.random()
         fault = None if fault_free else gen_fault(rng)
